@@ -24,9 +24,12 @@ theorem pyEq_optToVal (a b : Option String) : pyEq (optToVal a) (optToVal b) = (
   cases a <;> cases b <;> simp [optToVal, pyEq]
   exact BEq.comm
 
+theorem contains_list (l : List PyVal) (x : PyVal) : contains (.list l) x = .bool (l.any fun y => pyEq y x) := rfl
+
 theorem contains_encTypes (l : List (Option String)) (x : Option String) :
     contains (encTypes l) (optToVal x) = .bool (l.contains x) := by
-  unfold contains encTypes iter
+  unfold encTypes
+  rw [contains_list]
   congr 1
   induction l with
   | nil => rfl
@@ -34,7 +37,8 @@ theorem contains_encTypes (l : List (Option String)) (x : Option String) :
 
 theorem contains_encStrs (l : List String) (x : PyVal) :
     contains (encStrs l) x = .bool (match x with | .str a => l.contains a | _ => false) := by
-  unfold contains encStrs iter
+  unfold encStrs
+  rw [contains_list]
   congr 1
   induction l with
   | nil => cases x <;> rfl
